@@ -575,6 +575,11 @@ class Interp:
                 return HostMethod(obj, name)
             raise PyRaise(self.mkexc("AttributeError", name))
         if isinstance(obj, ExternalRef):
+            h = self.w.stubs.get("extattr")
+            if h is not None:
+                r = h(self, obj, name)
+                if r is not NotImplemented:
+                    return r
             return ExternalRef(obj.dotted + "." + name)
         if isinstance(obj, ModuleVal):
             return self.global_lookup(obj.info, name)
@@ -824,6 +829,8 @@ class Interp:
             if hasattr(r, "__next__") and hasattr(r, "send"):
                 return (yield from r)
             return r
+        if getattr(cls, "external", False) and cls.issubclass(BUILTIN_CLASSES["BaseException"]):
+            return Obj(cls, {"args": tuple(args), "__cause__": None})
         if getattr(cls, "external", False):
             stub = self.w.stubs.get(cls.qualname)
             if stub is None:
@@ -1784,6 +1791,12 @@ class Interp:
             if v.started:
                 self.raise_("RuntimeError", "cannot reuse already awaited coroutine")
             return (yield from self.yield_from(v, None, event="AWAIT"))
+        from .vals import Ready
+        if isinstance(v, Ready):
+            # an awaitable whose contract says `suspends: never`: completes at once (DESIGN 2.6 item 1)
+            if v.exc is not None:
+                raise PyRaise(v.exc)
+            return v.value
         # anything else is an abstract awaitable: the scheduler (harness) decides the outcome
         tok = yield ("AWAIT", (v, getattr(node, "lineno", None)))
         return self.token_value(tok)
